@@ -13,6 +13,7 @@ from vlib import harness
 
 ID = "C10"
 LEVEL = "exploration"
+ENGINE = "vkernel+sched"
 TECHNIQUE = "runtime monitor: history of served counter snapshots vs sequential wrap-accumulator reference model; linearizability check of two-thread schedules under a deterministic scheduler"
 RULE = ("one case = a history of calls (net_io_counters / disk_io_counters, nowrap True/False, pernic/perdisk, cache_clear) each "
         "served its own raw snapshot (1-5 devices; every counter steps up, wraps, wraps repeatedly, devices disappear/reappear, "
